@@ -39,11 +39,10 @@ def _slot_functions(facts, cast):
 def _field_tables(facts):
     gs = facts.func("_trait_getstate")
     ft = {}
-    for c in gs.walk():
-        if c.kind == "CallExpr" and callee(c) == "func_index":
-            a0, a1 = strip(c.ch[1]), strip(c.ch[2])
-            if a0.kind == "MemberExpr" and a1.kind == "DeclRefExpr":
-                ft[a0.name] = a1.ref
+    from ..cfacts import func_index_calls
+    for c, a0, a1, _boxed in func_index_calls(facts, gs):
+        if a0.kind == "MemberExpr" and a1.kind == "DeclRefExpr":
+            ft[a0.name] = a1.ref
     if len(ft) < 4:
         raise AnalysisError("function-pointer field tables not found")
     return ft
